@@ -60,6 +60,14 @@ impl World for Reactions {
                 molecules[b].1 = molecules[a].1;
             }
         }
+        // ... and so are individuals with the same solution but different objective values (a
+        // noisy or stateful objective function): a molecule is identified by the whole individual
+        if n >= 2 && g.chance(0.3) {
+            let (a, b) = (g.below(n), g.below(n));
+            if a != b && molecules[a].1 != molecules[b].1 {
+                molecules[b].0 = molecules[a].0;
+            }
+        }
         let reactants: Vec<usize> = match reaction {
             0 | 1 => vec![g.below(n)],
             _ => {
